@@ -25,12 +25,12 @@ def c02() -> int:
         "default:DispatchBase>ReserveBase",
         "default:DispatchBase>Idle",
     ]
-    fsx(c, RES + ({"variant": "core"},), ("hivemc.bundles", "c02", {}), K=3 if quick else 4, H=7 if quick else 8, needs=needs)
+    fsx(c, RES + ({"variant": "core"},), ("hivemc.bundles", "c02", {}), K=3 if quick else 4, H=7, needs=needs)
     fsx(c, GRID + ({"pairs": True},), ("hivemc.bundles", "c02", {}), K=2 if quick else 3, H=9 if quick else 11,
         needs=["default:DispatchStation>ChargeQueueing", "default:DispatchBase>ReserveBase"])
     # vehicles with idle draw: one holds the DCFC plug for many steps, a nearly empty one queues and runs dry while waiting
     fsx(c, RES + ({"variant": "full", "mechs": ("thirsty", "thirsty", "quiet"), "name": "W-res/drain"},), ("hivemc.bundles", "c02", {}),
-        K=2 if quick else 3, H=9 if quick else 11, needs=["c02:queued_vehicle_empty"])
+        K=2 if quick else 3, H=9 if quick else 10, needs=["c02:queued_vehicle_empty"])
     # a combustion vehicle among electric plugs and a gas pump; human and autonomous drivers that speak
     fsx(c, RES + ({"variant": "core", "gas": True, "mechs": ("thirsty", "tiny_thirsty", "ice"), "name": "W-res/energy"},), ("hivemc.bundles", "c02", {}),
         K=2 if quick else 3, H=7 if quick else 9)
